@@ -582,4 +582,10 @@ def CubicOffset.cusp_sign (self : CubicOffset K) (t : K) : K :=
 def CubicOffset.eval_deriv (self : CubicOffset K) (t : K) : Vec2 K :=
   ((self.cusp_sign t) * (self.q.eval t).to_vec2)
 
+def TranslateScale.scalar_mul (self : K) (other : TranslateScale K) : TranslateScale K :=
+  ({ translation := (other.translation * self), scale := (other.scale * self) } : TranslateScale K)
+
+def Affine.scalar_mul (self : K) (other : Affine K) : Affine K :=
+  (Affine.mk (self * other.c0) (self * other.c1) (self * other.c2) (self * other.c3) (self * other.c4) (self * other.c5))
+
 end Kurbo
